@@ -116,8 +116,48 @@ fn exec_ops(ctx: &mut Ctx, ev: &Ev) {
     ctx.check("esop-is-one-sound", !ns[0].is_one() || want_n.iter().all(|b| *b), ev, "not-is_one", || "is_one on a non-one !a".into());
 }
 
+fn exec_ctor(ctx: &mut Ctx, ev: &Ev) {
+    // values built by the named constructors; their meaning is read back through cubes()
+    let n = ev.n;
+    let v = ev.i(0);
+    ctx.event(&format!("esop-ctor|n={}", n), ev, true);
+    let r = guard(|| {
+        let list = vec![Esop::zero(n), Esop::one(n), Esop::nth_var(n, v), Esop::nth_var_inv(n, v)];
+        let mut out = Vec::new();
+        for e in &list {
+            let cubes: Vec<CubeM> = e.cubes().iter().map(CubeM::of).collect();
+            let vals: Vec<bool> = (0..1usize << n).map(|m| e.value(m)).collect();
+            let x = e ^ &list[3];
+            let xv: Vec<bool> = (0..1usize << n).map(|m| x.value(m)).collect();
+            let nn = !e;
+            let nv: Vec<bool> = (0..1usize << n).map(|m| nn.value(m)).collect();
+            out.push((cubes, vals, Lut::from(e), e.is_zero(), e.is_one(), e.num_cubes(), e.num_lits(), xv, nv));
+        }
+        out
+    });
+    match r {
+        Outcome::Returned(out) => {
+            let inv = out[3].1.clone();
+            for (k, (cubes, vals, l, isz, iso, nc, nl, xv, nv)) in out.iter().enumerate() {
+                let key = ["zero", "one", "nth_var", "nth_var_inv"][k];
+                let want = xor_sets(n, cubes);
+                ctx.check("esop-value-parity", *vals == want && *nc == cubes.len() && *nl == cubes.iter().map(|c| c.lits()).sum::<usize>(), ev, key, || format!("Esop::{} does not evaluate to the parity of its cubes", key));
+                ctx.check("esop-to-lut", Model::from_blocks(n, l.blocks()).bits == want, ev, key, || format!("Lut::from(&Esop::{}) is not the tabulated XOR", key));
+                ctx.check("esop-is-zero-sound", !*isz || want.iter().all(|b| !*b), ev, key, || "is_zero on a non-zero Esop".into());
+                ctx.check("esop-is-one-sound", !*iso || want.iter().all(|b| *b), ev, key, || "is_one on a non-one Esop".into());
+                let wx: Vec<bool> = want.iter().zip(inv.iter()).map(|(a, b)| a != b).collect();
+                ctx.check("esop-xor-semantic", *xv == wx, ev, key, || format!("Esop::{} ^ nth_var_inv does not denote the XOR", key));
+                let wn: Vec<bool> = want.iter().map(|b| !*b).collect();
+                ctx.check("esop-not-semantic", *nv == wn, ev, key, || format!("!Esop::{} does not denote the complement", key));
+            }
+        }
+        Outcome::Panicked(msg) => ctx.violate("no-panic", ev, "esop-ctor", format!("Esop constructor panicked: {}", msg)),
+    }
+}
+
 fn exec(ctx: &mut Ctx, ev: &Ev) {
     match ev.op.as_str() {
+        "esop-ctor" => exec_ctor(ctx, ev),
         "pprm" => exec_pprm(ctx, ev),
         "esop-ops" => exec_ops(ctx, ev),
         other => panic!("harness: unknown op {}", other),
@@ -208,6 +248,13 @@ fn main() {
                         a.push(d); // a repeated cube cancels
                     }
                     exec_ops(ctx, &ops_ev(nn, &a, &b));
+                }
+                if c == 0 {
+                    for nn in 1..=10usize {
+                        for v in 0..nn {
+                            exec_ctor(ctx, &Ev::new("esop-ctor", "Esop", nn).int(v));
+                        }
+                    }
                 }
                 // all pairs of lists of length <= 2 over n <= 2
                 if c == 0 {
